@@ -87,4 +87,35 @@ THEOREM Monotone == Spec => [][Mono]_vars
     BY <2>4 DEF vars, Mono
   <2> QED BY <2>1, <2>2, <2>3, <2>4 DEF Next
 <1> QED BY <1>1, SaneInvariant, PTL DEF Spec
+(* ---- sampling (C07): a sequence accepted by IsTopQ never repeats a candidate, stays within the candidates, and its first element is a
+   global arg-max; for any candidate set, rank function and batch size *)
+THEOREM TopQDistinct ==
+  ASSUME NEW chosen, NEW cand, NEW rank, NEW q, Len(chosen) \in Nat, IsTopQ(chosen, cand, rank, q)
+  PROVE  /\ \A a, b \in 1..Len(chosen) : a < b => chosen[a] # chosen[b]
+         /\ \A k \in 1..Len(chosen) : chosen[k] \in cand
+         /\ Len(chosen) >= 1 => \A c \in cand : rank[c] <= rank[chosen[1]]
+<1>1. \A k \in 1..Len(chosen) : /\ chosen[k] \in cand \ PrefixSet(chosen, k-1)
+                                 /\ \A c \in cand \ PrefixSet(chosen, k-1) : rank[c] <= rank[chosen[k]]
+  BY DEF IsTopQ
+<1>2. \A a, b \in 1..Len(chosen) : a < b => chosen[a] # chosen[b]
+  <2> SUFFICES ASSUME NEW a \in 1..Len(chosen), NEW b \in 1..Len(chosen), a < b PROVE chosen[a] # chosen[b]
+    OBVIOUS
+  <2>1. a \in 1..(b-1)
+    OBVIOUS
+  <2>2. chosen[a] \in PrefixSet(chosen, b-1)
+    BY <2>1 DEF PrefixSet
+  <2>3. chosen[b] \notin PrefixSet(chosen, b-1)
+    BY <1>1
+  <2> QED BY <2>2, <2>3
+<1>3. \A k \in 1..Len(chosen) : chosen[k] \in cand
+  BY <1>1
+<1>4. Len(chosen) >= 1 => \A c \in cand : rank[c] <= rank[chosen[1]]
+  <2> SUFFICES ASSUME Len(chosen) >= 1 PROVE \A c \in cand : rank[c] <= rank[chosen[1]]
+    OBVIOUS
+  <2>1. 1 \in 1..Len(chosen)
+    OBVIOUS
+  <2>2. PrefixSet(chosen, 1-1) = {}
+    BY DEF PrefixSet
+  <2> QED BY <1>1, <2>1, <2>2
+<1> QED BY <1>2, <1>3, <1>4
 =============================================================================
